@@ -22,6 +22,21 @@ func inLoop(fn *ssa.Function, in ssa.Instruction) bool {
 func checkC11(p *ana.Prog, r *ana.Result) {
 	r.Explain("C11 (structural necessary conditions): field kinds - each NTS extension kind packs the type constant its own unpack accepts, pairwise distinct (shared with C14); single use - FetchData hands out a copy of the data and then drops exactly the first cookie on every success path, NewRequestPacket reads only Cookie[0] and appends exactly one cookie field outside any loop, both clients build the request from the FetchData result of the same invocation and never inside a retry loop; placeholder count - the placeholder loop runs from len(cookies handed out) to the constant 8 in steps of one and appends exactly one placeholder per iteration; server issue - in both listeners the cookie loop's trip count is len(Cookies)+len(CookiePlaceholders) of the request, every iteration seals the session cookie under provider.Current() and appends the freshly allocated result of Encode() of that iteration (no shared buffer), and the reply is built from that list; pool refill - cookies are stored only by ProcessResponse after authentication, one StoreCookie per decoded cookie; authenticated fields only - nts.DecodePacket reads no extension header after the authenticator, so fields behind it are neither stored as cookies nor counted as requested cookies. The fields the server counts are those of this datagram only (same per-datagram-state rule as C09).")
 	r.Undecided("that the pool never exceeds eight / never shrinks (run-time count of what the server returns), the size budget at each pool level (length arithmetic over run-time values), re-keying dynamics")
+	// the pool holds the cookies the server issued: ReadData stores its own copy of every cookie
+	// record (a view into the stream reader's buffer is overwritten by the next read - all pool
+	// entries would then carry the bytes of the last cookie; rule shared with C20)
+	{
+		n0 := len(r.Obls)
+		c20ReadData(p, r)
+		shareObls(p, r, n0, "C20.readdata", "C11.pool-copy", "net/ntske.ReadData", "cookie-is-own-buffer")
+	}
+	// "each of which opens ... to the same session keys": cookies are sealed from and opened into
+	// values of their own (Seal over c.Encode(), Open into a fresh buffer; rule shared with C10)
+	{
+		n0 := len(r.Obls)
+		c10AEAD(p, r)
+		shareObls(p, r, n0, "C10.aead", "C11.cookie-keys", "net/ntske.cookies", "cookie-seal-open-")
+	}
 	// "requests always fit": an encoder's free-space test must not demand more than the field occupies
 	c14ExtLen(p, r, "C11.space-test", false, true)
 	c14Tags(p, r)
@@ -36,15 +51,7 @@ func checkC11(p *ana.Prog, r *ana.Result) {
 	{
 		n0 := len(r.Obls)
 		c10Coverage(p, r)
-		kept := r.Obls[:n0]
-		for _, o := range r.Obls[n0:] {
-			if strings.Contains(o.Key, "stop-at-authenticator") {
-				o.Rule = "C11.authenticated-fields"
-				o.Key = strings.Replace(o.Key, "C10.coverage", "C11.authenticated-fields", 1)
-				kept = append(kept, o)
-			}
-		}
-		r.Obls = kept
+		shareObls(p, r, n0, "C10.coverage", "C11.authenticated-fields", "net/nts.DecodePacket", "stop-at-authenticator")
 	}
 	c11Fetch(p, r)
 	c11Request(p, r)
